@@ -9,7 +9,7 @@
    labels Kubernetes reads for the object's kind; [selects s w] = every requirement of s's selector is met
    by w's pod labels; [apply_chain_al] = a resource through the directives of its layer chain with the
    node sharing of the implementation. [nonstr] is the go-yaml resolution oracle (any function). *)
-From KV Require Import Res.Labels Res.LabelsProofs Res.LabelsGen Res.LabelsAlias.
+From KV Require Import Res.Labels Res.LabelsProofs Res.LabelsGen Res.LabelsAlias Res.LabelsTree.
 
 (* ------------------------------------------------------------------------------------------- *)
 (* Obligations on the generated tables (vm_compute on Gen/FieldSpecs.v: editing a row in
@@ -259,3 +259,12 @@ Theorem C08_chain_alias_free_partial :
     apply_chain nonstr tc ds obj = Ok (fst st').
 Proof. exact chain_alias_free. Qed.
 Print Assumptions C08_chain_alias_free_partial.
+
+(* Whole trees (the function the build correspondence runs): every output resource of [accumulate] is the
+   image of a resource of some layer under the directive chain from that layer up to the root, with sharing. *)
+Theorem C08_build_outputs_are_chain_images :
+  forall (nonstr : string -> bool) (tc : tconfig) (l : layer) (out : list rstate),
+    accumulate nonstr tc l = Ok out ->
+    Forall (fun st' => exists r ch, reaches l r ch /\ apply_chain_al nonstr tc ch (r, []) = Ok st') out.
+Proof. exact build_outputs_are_chain_images. Qed.
+Print Assumptions C08_build_outputs_are_chain_images.
